@@ -56,8 +56,10 @@ def build_harness(race=False, cmd="drive"):
     One build directory per command so that checks of different properties can run concurrently."""
     hb = WORK / ("hb-" + cmd + ("-race" if race else ""))
     hb.mkdir(parents=True, exist_ok=True)
-    subprocess.run(["rsync", "-a", "--delete", "--exclude", "go.mod", "--exclude", "go.sum",
-                    str(VERIF / "harness") + "/", str(hb) + "/"], check=True)
+    rs = subprocess.run(["rsync", "-a", "--delete", "--exclude", "go.mod", "--exclude", "go.sum",
+                         str(VERIF / "harness") + "/", str(hb) + "/"], capture_output=True, text=True)
+    if rs.returncode not in (0, 24):   # 24 = "file vanished" while the source tree is being edited
+        raise MachineryError("rsync of harness failed: " + rs.stderr[-1000:])
     gomod = (VERIF / "harness" / "go.mod.tmpl").read_text().replace("@REPO@", str(REPO))
     old = (hb / "go.mod").read_text() if (hb / "go.mod").exists() else ""
     if old != gomod:
